@@ -50,10 +50,14 @@ Fixpoint gray_from (lims chain : list Z) : list Z * bool :=
   | _, _ => ([], false)
   end.
 
-(* static_cast<int>(initial_offset): defined only below 2^31 *)
-Definition INT_MAX : Z := 2147483647.
-Definition cast_int (o : Z) : option Z :=
-  if (0 <=? o) && (o <=? INT_MAX) then Some o else None.
+(* the integer type the initial offset is narrowed to in ::initialize, by its width:
+   32 = "int temp_offset = static_cast<int>(initial_offset)" (the code as it was),
+   64 = "int64_t temp_offset = initial_offset" (fixes/C11-gray-offset-int-cast.diff).
+   Outside the range of the type the model has no counter. *)
+Definition int_max (bits : Z) : Z := 2 ^ (bits - 1) - 1.
+Definition INT_MAX : Z := int_max 32.
+Definition cast_int (bits : Z) (o : Z) : option Z :=
+  if (0 <=? o) && (o <=? int_max bits) then Some o else None.
 
 Record counter := mkCounter {
   c_lims : list Z;      (* n_ary_limits *)
@@ -64,8 +68,8 @@ Record counter := mkCounter {
 }.
 
 (* n_aryGrayCodeCounter::initialize(initial_offset); [None] stands for the cast overflow *)
-Definition initialize (lims : list Z) (o : Z) : option (list Z * list Z) :=
-  match cast_int o with
+Definition initialize (bits : Z) (lims : list Z) (o : Z) : option (list Z * list Z) :=
+  match cast_int bits o with
   | Some t => let ch := chain_of lims t in Some (ch, fst (gray_from lims ch))
   | None => None
   end.
@@ -73,9 +77,9 @@ Definition initialize (lims : list Z) (o : Z) : option (list Z * list Z) :=
 (* constructor n_aryGrayCodeCounter(limits, n, initial_offset): offset_max = prod - 1,
    offset = initial_offset, initialize(initial_offset) — which leaves the arrays
    untouched (here: None) when the offset is outside [0, offset_max] *)
-Definition construct (lims : list Z) (o : Z) : option counter :=
+Definition construct (bits : Z) (lims : list Z) (o : Z) : option counter :=
   if (o <? 0) || (prodZ lims - 1 <? o) then None
-  else match initialize lims o with
+  else match initialize bits lims o with
        | Some (ch, g) => Some (mkCounter lims ch g o (prodZ lims - 1))
        | None => None
        end.
@@ -172,6 +176,7 @@ Definition job_hi (idx_max K j : Z) : Z :=
   if j =? K - 1 then idx_max - 1 else (j + 1) * (idx_max / K) - 1.
 
 Section JobLoop.
+  Variable bits : Z.            (* width of the offset type in ::initialize, see cast_int *)
   (* the accumulated quantity lives in any monoid; S is the per-job running state
      (column sums, binomial weight, sign) *)
   Variable A : Type.
@@ -198,7 +203,7 @@ Section JobLoop.
   (* one job: thread_results[job] (starts from zero).  A failed construction (offset out of
      range / cast overflow) leaves the arrays uninitialised in C++: modelled as None *)
   Definition job (lims : list Z) (lo hi : Z) : option A :=
-    match construct lims lo with
+    match construct bits lims lo with
     | None => None
     | Some c0 =>
         let c := set_offset_max c0 hi in
